@@ -304,6 +304,18 @@ def discharge_maypanic(A, bb, path, args, t):
             # u32 -> usize on a 64-bit target
             if "TryFrom<u32>" in str(a0[1]) and "usize" in str(a0[1]):
                 return "u32 -> usize is infallible on a 64-bit target"
+        if a0 and a0[0] == "call" and "core::array::<impl core::convert::TryFrom<&[u8]> for [u8; " in str(a0[1]):
+            n = int(str(a0[1]).split("for [u8; ")[1].split("]")[0])
+            src = G.N(a0[2][0])
+            # x.get(a..b) with constant b - a == N, reached through ok_or()? / unwrap
+            if src[0] in ("try_ok", "unwrap"):
+                src = src[1]
+            if src[0] == "call" and G.cn(src[1]) == "core::option::Option::ok_or":
+                src = src[2][0]
+            if src[0] == "call" and G.cn(src[1]) == "core::slice::get":
+                rg = src[2][1]
+                if rg[0] == "aggr" and rg[1][1].endswith("::Range") and rg[2][0][0] == "c" and rg[2][1][0] == "c" and rg[2][1][1] - rg[2][0][1] == n:
+                    return "slice.get(%d..%d) has exactly %d bytes" % (rg[2][0][1], rg[2][1][1], n)
         if a0 and a0[0] == "call" and "Layout::from_size_align" in str(a0[1]):
             return None
     if path.startswith("core::option::Option::<T>::unwrap") or path.startswith("core::option::Option::<T>::expect"):
@@ -327,6 +339,9 @@ def discharge_maypanic(A, bb, path, args, t):
             elif nm.endswith("::RangeFrom"):
                 need = [("cmp", "Le", ops[0], ln)]
             elif nm.endswith("::RangeTo"):
+                e = G.strip(ops[0])
+                if e[0] == "min" and (G.strip(e[1]) == ln or G.strip(e[2]) == ln):
+                    return "range end is min(len, _)"
                 need = [("cmp", "Le", ops[0], ln)]
             elif nm.endswith("::RangeFull"):
                 return "full range"
